@@ -1,17 +1,26 @@
 """C07 bounded stand-in: navigation independence of t2listing evaluated on the real code.
 
 After EVERY action of a navigation sequence (first, last, next, prev, index=i, time=t, step=s,
-history(...)) on a reader of a shipped listing (or of a truncated copy with 1..N-1 result sets):
+history(...)) played on a newly opened reader of a shipped listing (tests/listing/*/*/, no *.npy, no *~),
+of a truncated copy with 1..N-1 result sets, or of the listing opened with one table in skip_tables:
 
   index     the reported index is the one the property statement prescribes: first -> 0, last -> n-1,
             next/prev -> one further unless already at the end, index=i -> i (n+i for negative i;
             outside -n..n-1: IndexError and nothing moves), time=t / step=s -> a result set nearest
-            to t / s (brute force over the times of the fresh readers), history -> unchanged
+            to t / s (brute force over the times / steps of the fresh readers, ties: either),
+            history -> unchanged
   moved     next()/prev() return whether they moved
   state     (index, time, step) and every table array equal those of a FRESH t2listing of the same
             file positioned with index = i  (one fresh reader per i, opened only for that)
   raises    no action raises (except the prescribed IndexError); none runs into the time limit
+            (CPU seconds of the worker plus a wall-clock limit; expiry = 'timeout <file> <sequence>')
   monotone  times and steps of the result sets are non-decreasing (precondition of "nearest")
+
+Sequences: every concrete action alone (from the first and from the last result set); every pair of the
+9 action classes; every class sequence of length 3 (quick, 6 merged classes) / 4 (thorough, 9 classes;
+files > 230 kB: a seeded sample), the concrete parameters of a class (which index, exact / between /
+before-first / after-last time and step, which history selection) rotating through their variants;
+the out-of-range index in context; random sequences of 30 actions.  Failing sequences are shrunk.
 
 usage: c07_navigation.py <tier> <seed>
 """
@@ -30,7 +39,7 @@ tier = sys.argv[1] if len(sys.argv) > 1 else 'quick'
 seed = int(sys.argv[2]) if len(sys.argv) > 2 else 0
 QUICK = tier != 'thorough'
 NPROC = 16
-CALL_LIMIT = 2.0 if QUICK else 10.0         # CPU seconds for one action / one open (normal: < 0.5)
+CALL_LIMIT = 2.0 if QUICK else 5.0         # CPU seconds for one action / one open (normal: < 0.5)
 WALL_FACTOR = 8                             # ... and CALL_LIMIT * WALL_FACTOR seconds of wall clock (blocking hang)
 T_START = time.time()
 DEADLINE = T_START + (36.0 if QUICK else 700.0)   # no new sequence is started after this (left-overs are counted)
@@ -433,7 +442,7 @@ def run_job(job, conn, progfile):
         nshrunk = 0
         ntimeouts = 0
         for seq in seqs:
-            if time.time() > DEADLINE or ntimeouts >= (2 if QUICK else 5):
+            if time.time() > DEADLINE or ntimeouts >= (2 if QUICK else 3):
                 out['skipped'] += 1          # out of time, or this reader has hung often enough
                 continue
             desc = ', '.join(show(a) for a in seq)
